@@ -8,3 +8,9 @@ Theorem C19_index_rows_width_independent :
   forall (rows : list row) (s : rowsel), Forall fits32 rows -> index_rows32 rows s = index_rows64 rows s.
 Proof. exact index_rows_width_independent. Qed.
 Print Assumptions C19_index_rows_width_independent.
+
+Theorem C19_excl_prefix_in32 :
+  forall ls : list Z,
+       all_nonneg ls -> zsum ls < 2 ^ 31 -> Forall in32 (excl_prefix ls) /\ Forall in32 (cumsum ls).
+Proof. exact excl_prefix_in32. Qed.
+Print Assumptions C19_excl_prefix_in32.
